@@ -224,6 +224,31 @@ def parseCrashes : List Nat → Option (List Crash)
 def mkCfg (da co ve fo xy pr ck st : Nat) : Cfg :=
   { h5 := { data := da, coords := co, vels := ve, forces := fo }, xyz := xy, print := pr, ckpt := ck, steps := st }
 
+/-! ## the transition-density-matrix stream (written inside `append_data`, i.e. behind the data cadence; theorems in `Properties/C11Tdm.lean`) -/
+
+structure TW where
+  labels : List Nat
+  capacity : Nat
+deriving Repr, DecidableEq
+
+/-- `if i_tdm < flags["Tw_tdm"]: steps[i_tdm] = step; i_tdm += 1` -/
+def TW.write (w : TW) (s : Nat) : TW :=
+  if w.labels.length < w.capacity then { w with labels := w.labels ++ [s] } else w
+
+/-- `append_data` is reached at the data cadence only; inside it, the stream's own modulo test -/
+def tdmStep (d t : Nat) (w : TW) (s : Nat) : TW := if isDue d s && isDue t s then w.write s else w
+
+/-- the initial snapshot (step 0) and steps `1 … k` of the run loop -/
+def tdmRun (d t : Nat) : Nat → TW → TW
+  | 0, w => tdmStep d t w 0
+  | k+1, w => tdmStep d t (tdmRun d t k w) (k + 1)
+
+/-- `_create_new`: `Tw_tdm = _n_timepoints(steps, t)` rows, cursor 0 -/
+def tdmOpen (t N : Nat) : TW := { labels := [], capacity := cap t N }
+
+/-- what the nested gates let through -/
+def tdmDue (d t N : Nat) : List Nat := (List.range (N+1)).filter (fun s => isDue d s && isDue t s)
+
 /-- `mdout data coords vels forces xyz print ckpt steps {step upto hard mask}*` -/
 def handle (toks : List String) : Option String :=
   match toks with
@@ -243,6 +268,12 @@ def handle (toks : List String) : Option String :=
       let c := mkCfg da co ve fo xy pr ck st
       pure (showDisk (specDisk c) ++ " screen=" ++ Util.showNats (specScreen c))
     | _ => none
+  | ["tdm", d, t, steps] => do
+    let d ← d.toNat?
+    let t ← t.toNat?
+    let n ← steps.toNat?
+    let w := tdmRun d t n (tdmOpen t n)
+    pure ("labels=" ++ Util.showNats w.labels ++ " cap=" ++ toString w.capacity)
   | ["ntimepoints", steps, stride] => do
     let n ← steps.toNat?
     let e ← stride.toNat?
